@@ -6,26 +6,41 @@ from lib import cnat, clist, cpair
 NAME_POOL = ["A", "B c", "été", "x-lower", "D/sub", "名前", "E e", "F", "g", "H h h"]
 
 
-def spec(case):
-    """Direct oracle from the property text (least fixed point + one-hop redirects)."""
-    n = len(case["names"])
-    clo = {i for i in range(n) if case["flagged"][i]}
+def spec_run(case, present, premarked):
+    """One analysis on the stored pages [present], some of them already marked: least fixed point from the flagged and the
+    already marked templates over 'includes', then the one-hop redirects (property text)."""
+    clo = {i for i in present if case["flagged"][i] or i in premarked}
     changed = True
     while changed:
         changed = False
-        for t in range(n):
+        for t in present:
             if t not in clo and any(u in clo for u in case["uses"][t]):
                 clo.add(t)
                 changed = True
     out = set(clo)
-    for r in range(n):
+    for r in present:
         d = case["redirect"][r]
-        if d is not None:
+        if d is not None and d in present:
             if d in clo:
                 out.add(r)
             if r in clo:
                 out.add(d)
     return sorted(out)
+
+
+def spec_runs(case):
+    n = len(case["names"])
+    pm = {i for i in range(n) if (case.get("premarked") or [False] * n)[i]}
+    p2 = set(case.get("phase2") or [])
+    first = [i for i in range(n) if i not in p2]
+    runs = [spec_run(case, first, pm & set(first))]
+    if p2:
+        runs.append(spec_run(case, list(range(n)), set(runs[0]) | pm))
+    return runs
+
+
+def spec(case):
+    return spec_runs(case)[-1]
 
 
 def gen_case(rng, n):
@@ -38,7 +53,12 @@ def gen_case(rng, n):
     uses = [[j for j in range(n) if rng.random() < dens] for i in range(n)]
     fp = rng.choice([0.0, 0.15, 0.3, 0.6])
     flagged = [rng.random() < fp for _ in range(n)]
-    return {"names": names, "uses": uses, "flagged": flagged, "redirect": redirect}
+    c = {"names": names, "uses": uses, "flagged": flagged, "redirect": redirect}
+    if rng.random() < 0.35:
+        c["premarked"] = [rng.random() < 0.3 for _ in range(n)]       # stored with need_pre_expand=True (override files do that)
+    if n > 1 and rng.random() < 0.35:
+        c["phase2"] = sorted(rng.sample(range(n), rng.randint(1, n - 1)))   # stored after a first analysis; analysed again
+    return c
 
 
 def exhaustive(nmax):
@@ -54,14 +74,24 @@ def exhaustive(nmax):
                        "redirect": [None] * n}
 
 
-def coq_case(case, marked):
+def coq_cases_of(case, runs):
+    """one Coq case per analysis run: the pages present, the seeds (flagged or already marked) and the marked set"""
     n = len(case["names"])
-    edges = [(u, t) for t in range(n) for u in case["uses"][t]]
-    flagged = [i for i in range(n) if case["flagged"][i]]
-    reds = [(r, d) for r, d in enumerate(case["redirect"]) if d is not None]
+    pm = {i for i in range(n) if (case.get("premarked") or [False] * n)[i]}
+    p2 = set(case.get("phase2") or [])
     pl = lambda l: clist(l, lambda p: cpair(cnat(p[0]), cnat(p[1])), "nat * nat")
-    return "(%s, %s, %s, %s, %s)" % (cnat(n), pl(edges), clist(flagged, cnat, "nat"),
-                                     pl(reds), clist(marked, cnat, "nat"))
+    out = []
+    before = set()
+    for k, r in enumerate(runs):
+        present = [i for i in range(n) if i not in p2] if (k == 0 and p2) else list(range(n))
+        ps = set(present)
+        edges = [(u, t) for t in present for u in case["uses"][t] if u in ps]
+        seeds = [i for i in present if case["flagged"][i] or i in pm or i in before]
+        reds = [(r_, d) for r_, d in enumerate(case["redirect"]) if d is not None and r_ in ps and d in ps]
+        out.append("(%s, %s, %s, %s, %s)" % (cnat(n), pl(edges), clist(seeds, cnat, "nat"), pl(reds),
+                                             clist(r["marked"], cnat, "nat")))
+        before = set(r["marked"])
+    return out
 
 
 def signature(case, got, want):
@@ -73,7 +103,8 @@ def signature(case, got, want):
 def run(run):
     run.rule = ("inclusion graphs on n templates (cycles, self-inclusion, diamonds; names with spaces/Unicode/"
                 "lower-case initials), flag sets, redirect placements; exhaustive for n<=2 (quick) / n<=3 (thorough) "
-                "plus random n<=8; non-trivial = at least one flagged template and one edge; distinct by JSON hash")
+                "plus random n<=8, a third of them with templates stored already marked and a third analysed twice (more "
+                "templates stored in between); non-trivial = at least one flagged template and one edge; distinct by JSON hash")
     run.trusted = [
         "Coq 8.16.1 kernel; vm_compute for evaluating the model on cases and for the Example",
         "axioms: none (Print Assumptions: Closed under the global context)",
@@ -97,14 +128,18 @@ def run(run):
             run.property_failure("analyze:" + r.get("outcome", "?") + ":" + r.get("exc", ""),
                                  "analyze_templates did not return normally: %r" % (r,), c)
             continue
-        want = spec(c)
-        if r["marked"] != want:
-            run.property_failure(signature(c, r["marked"], want),
-                                 "marked set %r differs from closure %r" % (r["marked"], want), c)
+        wants = spec_runs(c)
+        gots = [x["marked"] for x in r["runs"]]
+        if gots != wants:
+            which = "" if len(wants) == 1 else (":first-run" if gots[0] != wants[0] else ":re-analysis")
+            run.property_failure(signature(c, gots[-1] if gots[0] == wants[0] else gots[0],
+                                           wants[-1] if gots[0] == wants[0] else wants[0]) + which,
+                                 "marked sets %r differ from the closures %r" % (gots, wants), c)
         if r["classified"] != list(range(len(c["names"]))):
             run.correspondence_break("classifier not called exactly once per template", c, got=r["classified"])
-        coq_cases.append(coq_case(c, r["marked"]))
-        idx.append(i)
+        for cc in coq_cases_of(c, r["runs"]):
+            coq_cases.append(cc)
+            idx.append(i)
     bad, errs = lib.coq_eval_failing(
         "c17", ["Model.Analyze"], "nat * list (nat*nat) * list nat * list (nat*nat) * list nat",
         coq_cases, "fun '(n, e, f, r, m) => set_eqb (analyze n e f r) m")
